@@ -210,7 +210,14 @@ func (c *Cluster) saslStep(cn *Conn, st *connState, tok []byte) (out []byte, don
 			if !strings.Contains(withoutProof, "r="+sc.nonce) {
 				return nil, true, "nonce mismatch"
 			}
-			pass, known := cfg.Users[sc.user]
+			// the client sends the SASLprep-ed user name (RFC 5802): stored names
+			// are compared in their prepared form
+			pass, known := "", false
+			for name, pw := range cfg.Users {
+				if prep, err := stringprep.SASLprep.Prepare(name); err == nil && prep == sc.user {
+					pass, known = pw, true
+				}
+			}
 			if !known {
 				return nil, true, "unknown user"
 			}
